@@ -623,12 +623,10 @@ def rle_to_sparse(rle_data):
             index = end
     except StopIteration:
         pass
-    if len(indices) == 0:
-        assert len(values) == 0
-        return indices, values
-
-    indices = np.concatenate(indices)
-    values = np.concatenate(values, dtype=rle_data.dtype)
+    # start from empty arrays so all-zero data gives empty arrays, not lists
+    dtype = np.asarray(rle_data).dtype
+    indices = np.concatenate([np.zeros(0, dtype=np.int64)] + indices)
+    values = np.concatenate([np.zeros(0, dtype=dtype)] + values, dtype=dtype)
     return indices, values
 
 
